@@ -108,7 +108,7 @@ func (g *G) lit(t ty) string {
 	case tBool:
 		return []string{"true", "false"}[g.pick(2)]
 	case tStr:
-		return []string{`"ab"`, `""`, `"x"`, `"hello"`, `"日本語のテキスト"`, `"ééééééééééé"`, `"twenty five ascii letters"`}[g.pick(7)]
+		return []string{`"ab"`, `""`, `"x"`, `"hello"`, `"日本語のテキスト"`, `"ééééééééééé"`, `"twenty five ascii letters"`, `"50%d off"`, `"100%"`, `"%s%v%%"`}[g.pick(10)]
 	case tArr:
 		return []string{"[]", "[1, 2, 3]", "[4]", "[5, 6]"}[g.pick(4)]
 	}
@@ -134,6 +134,10 @@ func (g *G) expr(t ty, d int) string {
 	if fs := g.fns(t, false); len(fs) > 0 && g.pick(4) == 0 {
 		f := fs[g.pick(len(fs))]
 		return g.call(f, d-1)
+	}
+	if (t == tStr || t == tArr) && g.pick(4) == 0 || t == tInt && g.pick(8) == 0 {
+		// the order of the operands shows in strings and arrays
+		return g.chain(t, d-1)
 	}
 	switch t {
 	case tInt:
@@ -231,6 +235,38 @@ func (g *G) expr(t ty, d int) string {
 		}
 	}
 	panic("expr")
+}
+
+// chain is an operator tree of a random shape (left nested, right nested,
+// balanced) over 3 or 4 simple operands: the shapes decide which operand the
+// compiler computes in the temp register and which it pushes.
+func (g *G) chain(t ty, d int) string {
+	ops := []string{"+"}
+	if t == tInt {
+		ops = []string{"+", "-", "*", "&", "|"}
+	}
+	leaf := func() string {
+		if d > 0 && g.pick(5) == 0 {
+			return g.paren(g.expr(t, d-1))
+		}
+		return g.paren(g.expr(t, 0))
+	}
+	var build func(n int) string
+	build = func(n int) string {
+		if n == 1 {
+			return leaf()
+		}
+		k := 1 + g.pick(n-1) // operands on the left side
+		l, r := build(k), build(n-k)
+		if k > 1 {
+			l = "(" + l + ")"
+		}
+		if n-k > 1 {
+			r = "(" + r + ")"
+		}
+		return l + " " + ops[g.pick(len(ops))] + " " + r
+	}
+	return build(3 + g.pick(2))
 }
 
 // smallIndex is an int expression with value base or base+1, computed in one of
@@ -377,8 +413,18 @@ func (g *G) stmt(d int, ret ty) string {
 			k = 2
 		}
 		vars, its := []string{}, []string{}
+		reused := map[string]bool{}
 		for i := 0; i < k; i++ {
 			v := g.fresh("v")
+			if local && g.pick(4) == 0 {
+				// an int variable the function already has becomes a loop variable
+				if old := g.vars(tInt, true); len(old) > 0 {
+					if o := old[g.pick(len(old))]; !reused[o.name] {
+						v = o.name
+						reused[v] = true
+					}
+				}
+			}
 			vars = append(vars, v)
 			if len(gens) > 0 && g.pick(3) > 0 {
 				its = append(its, g.call(gens[g.pick(len(gens))], d-1))
@@ -394,7 +440,9 @@ func (g *G) stmt(d int, ret ty) string {
 			}
 		}
 		for _, v := range vars {
-			g.def(&vinfo{name: v, t: tInt})
+			if !reused[v] {
+				g.def(&vinfo{name: v, t: tInt})
+			}
 		}
 		return "for " + strings.Join(vars, ", ") + " <- " + strings.Join(its, ", ") + " " + g.block(d-1, ret)
 	case c == 9 && local && d > 0:
@@ -746,5 +794,21 @@ func (g *G) PureFunction(d int) (def, call, other string) {
 func (g *G) helpers() []string {
 	g.def(&vinfo{name: "one", t: tFn, ret: tInt})
 	g.def(&vinfo{name: "inc", t: tFn, ret: tInt, params: []ty{tInt}})
-	return []string{"one = () -> (3 - 1) - 1", "inc = (x) -> (x + 2) - 1"}
+	res := []string{"one = () -> (3 - 1) - 1", "inc = (x) -> (x + 2) - 1"}
+	if g.pick(5) == 0 {
+		// the names of the built-ins are ordinary globals: a program may rebind them
+		// (the bodies use nested operators, i.e. the temp register)
+		switch g.pick(3) {
+		case 0:
+			res = append(res, "toa = (v) -> \"t\" + (\"o\" + \"a\")")
+			g.def(&vinfo{name: "toa", t: tFn, ret: tStr, params: []ty{tInt}})
+		case 1:
+			res = append(res, "aton = (s) -> (#s + 1) * 2")
+			g.def(&vinfo{name: "aton", t: tFn, ret: tInt, params: []ty{tStr}})
+		default:
+			res = append(res, "toa = (v) -> {\nw = [v]\n\"<\" + (\"\" + \">\")\n}")
+			g.def(&vinfo{name: "toa", t: tFn, ret: tStr, params: []ty{tArr}})
+		}
+	}
+	return res
 }
